@@ -199,3 +199,61 @@ Proof.
   intros Hf. destruct (squelch_line_invariant me ts sq_init [] sq_init_inv paligned_init) as [Hp _].
   apply paligned_full; [exact Hp|]. destruct Hp as (Hl & Hf' & _). rewrite Hf in Hf'. unfold HISTORY_SYMBOLS in Hf'. lia.
 Qed.
+
+(** * The byte clock: while the sync is locked the squelch hands on one byte every eight symbols, and
+    successive bytes tile the received bit stream — none skipped, none overlapping *)
+Definition front_power (g : line) (x : bool * bool) : bool := snd (nth 0 (shift_in g x) (false, false)).
+
+(** one symbol with the sync locked, the byte clock running and power recorded with the oldest symbol *)
+Lemma locked_step me s g bit po pc c :
+  aligned s g -> sq_lock s = true -> sq_clock s = Some c -> c < 8 ->
+  front_power g (bit, pc) = true ->
+  exists hb s',
+    sq_input me s bit po pc = ((if c =? 0 then SqReady false hb else SqReading), s')
+    /\ sq_clock s' = Some ((c + 1) mod 8) /\ sq_lock s' = true /\ aligned s' (shift_in g (bit, pc))
+    /\ (c = 0 -> hb < 256 /\ forall i, (i < 8)%nat -> N.testbit hb (N.of_nat i) = fst (nth i (shift_in g (bit, pc)) (false, false))).
+Proof.
+  intros Ha Hl Hc Hc8 Hfp.
+  pose proof (sq_input_aligned me s g bit po pc Ha) as Ha'.
+  pose proof (ready_byte_is_oldest_eight me s g bit po pc) as Hrb.
+  destruct Ha as (Hlen & Hf & Hw & Hcorr & Hp).
+  assert (push_wrapping (sq_phist s) pc = map snd (shift_in g (bit, pc))) as Eph.
+  { rewrite Hp. unfold push_wrapping, shift_in. rewrite app_length, map_length, Hlen. cbn [length].
+    change (POWER_HISTORY <? 32 + 1)%nat with true. cbv iota.
+    destruct g as [|a g]; [discriminate|]. cbn [map tl app]. rewrite map_app. reflexivity. }
+  revert Ha' Hrb. unfold sq_input. rewrite Hf.
+  change (N.min (HISTORY_SYMBOLS + 1) HISTORY_SYMBOLS) with HISTORY_SYMBOLS.
+  change (HISTORY_SYMBOLS <? HISTORY_SYMBOLS) with false. cbv iota.
+  rewrite Hl, Hc. cbn [negb andb]. rewrite Eph.
+  unfold front_power in Hfp.
+  destruct (shift_in g (bit, pc)) as [|[b0 p0] rest] eqn:Eg; [cbn in Hfp; discriminate|].
+  cbn [map snd nth] in *. subst p0. cbn [negb].
+  destruct c as [|p].
+  - cbn [N.eqb]. intros Ha' Hrb. eexists _, _. split; [reflexivity|].
+    cbn [sq_clock sq_lock snd] in *. split; [reflexivity|]. split; [reflexivity|]. split; [exact Ha'|].
+    intros _. eapply Hrb; [repeat split; assumption|reflexivity].
+  - assert ((N.pos p =? 0) = false) as -> by reflexivity. intros Ha' _. exists 0. eexists. split; [reflexivity|].
+    cbn [sq_clock sq_lock snd] in *. split; [reflexivity|]. split; [reflexivity|]. split; [exact Ha'|]. intros X; discriminate.
+Qed.
+
+(** the lines after 0..8 further symbols *)
+Fixpoint lines_after (g : line) (xs : list (bool * bool)) : list line :=
+  match xs with [] => [] | x :: r => shift_in g x :: lines_after (shift_in g x) r end.
+
+(** eight symbols from a byte boundary: one byte, then seven symbols of reading, and a byte boundary again *)
+Theorem one_byte_every_eight_symbols me : forall (xs : list (bool * bool * bool)) s g c,
+  aligned s g -> sq_lock s = true -> sq_clock s = Some c -> c < 8 ->
+  Forall (fun gl => snd (nth 0 gl (false, false)) = true) (lines_after g (map (fun t => (fst (fst t), snd t)) xs)) ->
+  sq_lock (feed me s xs) = true /\ sq_clock (feed me s xs) = Some ((c + N.of_nat (length xs)) mod 8)
+  /\ aligned (feed me s xs) (fold_left (fun g t => shift_in g (fst (fst t), snd t)) xs g).
+Proof.
+  induction xs as [|[[b po] pc] xs IH]; intros s g c Ha Hl Hc Hc8 Hf.
+  - cbn [feed fold_left length]. split; [exact Hl|]. split; [|exact Ha]. rewrite Hc. f_equal. rewrite N.add_0_r. symmetry. apply N.mod_small. exact Hc8.
+  - cbn [map lines_after fst snd] in Hf. inversion Hf as [|? ? Hf0 Hf']; subst.
+    destruct (locked_step me s g b po pc c Ha Hl Hc Hc8 Hf0) as (hb & s1 & E & Hc1 & Hl1 & Ha1 & _).
+    change (feed me s ((b, po, pc) :: xs)) with (feed me (snd (sq_input me s b po pc)) xs).
+    rewrite E. cbn [snd fold_left fst length].
+    destruct (IH s1 (shift_in g (b, pc)) ((c + 1) mod 8) Ha1 Hl1 Hc1 ltac:(apply N.mod_lt; discriminate) Hf') as (I1 & I2 & I3).
+    split; [exact I1|]. split; [|exact I3]. rewrite I2. f_equal.
+    rewrite N.add_mod_idemp_l by discriminate. f_equal. lia.
+Qed.
